@@ -182,18 +182,20 @@ CLAIMED = {
   text="Lean 4 model of Display for Type (token printer on the given member order + renderer) and of the grammar's type rules "
        "(lexer + recursive-descent parser building unions with concat). Proved: unions are parenthesised exactly as function "
        "results and as mut contents and printed bare as array elements, parameters and struct fields; `[]` <-> array of `!`; "
-       "separators; and THE ROUND TRIP FOR ALL TYPES on the token level (roundtrip_tokens): for every well-formed printable type t "
+       "separators; and THE ROUND TRIP FOR ALL TYPES, on tokens (roundtrip_tokens) and on TEXT (roundtrip_text: parse (print t) = t, "
+       "lexer included): for every well-formed printable type t "
        "(any nesting of the thirteen constructors; tuples with >= 2 components, struct keys not reserved words) the parser run on the "
        "printer's tokens for t, followed by anything not starting with `->` or `|`, returns exactly t and that remainder - through the "
        "grammar's ordered choices (function type before `()` before tuple; a parenthesised union is not a standard type) and concat's "
-       "rebuilding of unions (which needs == symmetric: eqv_symm). NOT proved: the character level (lex o render = id on printed "
-       "tokens). The text route is checked in both directions between model and implementation on generated types - the "
+       "rebuilding of unions (which needs == symmetric: eqv_symm); the character level is lex_render (lexing the rendered text "
+       "gives the printed tokens back: two words never meet except after `mut`, which is printed with a space; struct keys are "
+       "identifiers) and size_le_toks (the fuel the parser takes from the token count suffices). The text route is checked in both directions between model and implementation on generated types - the "
        "implementation's prints (several hash orders) read by the model parser, the model's print checked on each instance's own "
        "order and its shuffled-order prints read by the implementation - plus the implementation's own oracle "
        "from_str(to_string(t)) == t and the internal re-parse path of `it ? T`.",
   note="Lean kernel; printer / parser models are hand-written (tied by the two-way correspondence); 0- and 1-tuples have no syntax; the model "
        "lexer rejects characters outside the printed alphabet where the scannerless grammar would stop (only printed types are compared).",
-  technique="Lean 4 proof of the token-level print/parse round trip for all types + two-way print/parse text correspondence", ref="DESIGN.md §6 C15"),
+  technique="Lean 4 proof of the print/parse round trip for all types (tokens and text) + two-way print/parse text correspondence", ref="DESIGN.md §6 C15"),
  "C20": dict(
   text="Lean 4 theorems over the model of parse_int_with_radix and of the `{:?}` / unescaper 0.1.5 pair: an integer literal in any of "
        "the four radixes denotes its positional value when that is <= 2^63 - 1 (<= 2^63 behind a minus sign, so MIN_INT reads back) "
